@@ -417,21 +417,26 @@ CONTRACTS = [
 
 # ------------------------------------------------------------------ send / resend against the PTX engine (C02's clauses)
 
-def lite_send_inv(self):
+def lite_send_pre(self):
     hw = self._spi.hw
     s = self._status
     return (lite_inv(self) and (hw.reg[0] & 3) == 2 and not hw.inflight
-            and hw.tx_n <= 1 and (hw.tx_n == 0 or (s & 0x11) != 0)
+            and hw.tx_n <= 3 and (hw.tx_n == 0 or (s & 0x11) != 0)
             and implies(hw.tx_n > 0, (hw.reg[7] & 0x10) != 0 or not hw.ce)
             and implies(hw.tx_n > 0, (hw.reg[7] & 0x60) == 0)
             and implies(((s >> 1) & 7) >= 6, hw.rx_n == 0)
-            and implies(hw.tx_n > 0, hw.tx_ackpipe[0] < 0))
+            and implies(hw.tx_n > 0, hw.tx_ackpipe[0] < 0)
+            and implies(hw.tx_n > 1, hw.tx_ackpipe[1] < 0) and implies(hw.tx_n > 2, hw.tx_ackpipe[2] < 0))
+
+
+def lite_send_inv(self):
+    return lite_send_pre(self) and self._spi.hw.tx_n <= 1
 
 
 def req_lite_send(self, buf, ask_no_ack, force_retry, send_only):
     hw = self._spi.hw
     dyn = (hw.reg[0x1C] & 1) != 0
-    return lite_send_inv(self) and implies(dyn, 1 <= len(buf) and len(buf) <= 32)
+    return lite_send_pre(self) and implies(dyn, 1 <= len(buf) and len(buf) <= 32)
 
 
 def ens_lite_send_inv(self, exc):
